@@ -167,6 +167,27 @@ Proof.
   intros H HQ. unfold dec_len. apply wp_bind. apply wp_get_len. rewrite H. apply wp_set_len. exact HQ.
 Qed.
 
+(* unwinding through a frame that owns locals: the cleanup runs on the panic path *)
+Lemma wp_on_unwind {A} (cleanup : M unit) (c : M A) (Qn : A -> world -> Prop) (Qp : world -> Prop) w :
+  wp c Qn (fun w' => wp cleanup (fun _ => Qp) Qp w') w -> wp (on_unwind cleanup c) Qn Qp w.
+Proof.
+  unfold wp, on_unwind. destruct (c w) as [a w'|w'|]; auto.
+  destruct (cleanup w') as [u w''|w''|]; auto.
+Qed.
+
+Lemma wp_on_unwind_nopanic {A} (cleanup : M unit) (c : M A) (Qn : A -> world -> Prop) (Qp : world -> Prop) w :
+  wp c Qn (fun _ => False) w -> wp (on_unwind cleanup c) Qn Qp w.
+Proof.
+  unfold wp, on_unwind. destruct (c w) as [a w'|w'|]; auto. intros [].
+Qed.
+
+Lemma wp_check_index i (Qn : unit -> world -> Prop) (Qp : world -> Prop) w :
+  (i < cap (self w) -> Qn tt w) -> (cap (self w) <= i -> Qp w) -> wp (check_index i) Qn Qp w.
+Proof.
+  intros H1 H2. unfold check_index. apply wp_bind. apply wp_get_cap.
+  destruct (Nat.ltb_spec i (cap (self w))); [apply wp_ret | apply wp_panic]; auto.
+Qed.
+
 End Hoare.
 
 (* list facts about [upd] *)
